@@ -2,6 +2,6 @@
 # copies finished sub-agent deliverables (/tmp/mut6/Cxx/n/{patch.diff,demo.cpp,meta.json}) into /verif/seeded-incoming so that a sandbox restore cannot lose them
 cd "$(dirname "$0")/.."
 for c in /tmp/mut6/C*/; do id=$(basename $c); for n in 1 2 3 4; do
-  [ -f $c/$n/patch.diff ] && [ -f $c/$n/demo.cpp ] && [ -f $c/$n/meta.json ] && mkdir -p seeded-incoming/$id/$n && cp $c/$n/patch.diff $c/$n/demo.cpp $c/$n/meta.json seeded-incoming/$id/$n/
+  [ -f $c/$n/patch.diff ] && [ -f $c/$n/demo.cpp ] && [ -f $c/$n/meta.json ] && mkdir -p seeded-incoming/$id/$n && cp -n $c/$n/patch.diff $c/$n/demo.cpp $c/$n/meta.json seeded-incoming/$id/$n/
 done; done
 find seeded-incoming -name patch.diff | wc -l
